@@ -341,12 +341,32 @@ def scenario_tables(ch, cfg):
         open_store()
         for i in range(nops):
             st = state["store"]
-            k = ch.weighted([6, 6, 2, 2, 1], "op")
+            k = ch.weighted([6, 6, 2, 2, 1, 2], "op")
+            if k == 5:
+                # the application modifies, in place, a table it got from the store or the table it has just
+                # stored: neither may change what the store returns (values are copies, not aliases of the cache)
+                key = keys[ch.draw(nkeys, "k")]
+                if key in model:
+                    try:
+                        got = klong(f'tbs?"{key}"')
+                        if isinstance(got, Table):
+                            got.set("zz", 1)
+                            stats["probe_returned_table_mutated"] += 1
+                    except BaseException as e:   # noqa
+                        if isinstance(e, SystemExit):
+                            raise
+                log.append(f"mutate-returned({key})")
+                w.note(log[-1])
+                continue
             if k == 0:
                 key = keys[ch.draw(nkeys, "k")]
                 rows = mk_table()
                 try:
                     klong(f'tbs,"{key}",,T')
+                    if ch.draw(3, "mutate_input") == 0:
+                        # the caller goes on using (and changing) the table it has just stored
+                        klong._context[KGSym("T")].set("zz", 1)
+                        stats["probe_stored_table_mutated_afterwards"] += 1
                     cur = model.setdefault(key, {})
                     for ix, row in rows.items():
                         if ix in cur:
